@@ -28,7 +28,7 @@ def _key(cap, st):
 
 
 def model(tier, rep, name="String"):
-    r = vlib.tlc_mc("String.tla", "String.cfg", "string_%s" % tier, workers=8, constants=CONSTS[tier], heap="8g",
+    r = vlib.tlc_mc("String.tla", "String.cfg", "string_%s" % tier, workers=6, constants=CONSTS[tier], heap="4g",
                     timeout=2400)
     rep.add_mc(name, r)
     rep.cov["exhaustive"] = True
@@ -254,7 +254,7 @@ def _merge(paths, out):
 def validate(paths, tag):
     os.environ.setdefault("JAVA_TOOL_OPTIONS", "-XX:ParallelGCThreads=2")
     merged = _merge(paths, os.path.join(vlib.workdir("traces"), tag + "_merged"))
-    return vlib.tv_parallel("StringTrace.tla", "StringTrace.cfg", merged, tag, par=min(vlib.NCPU, 10), heap="4g"), merged
+    return vlib.tv_parallel("StringTrace.tla", "StringTrace.cfg", merged, tag, par=min(vlib.NCPU, 6), heap="2g"), merged
 
 
 def _cleanup(paths):
